@@ -173,7 +173,7 @@ func (s ASGAPI) AttachInstances(in *autoscaling.AttachInstancesInput) (*autoscal
 		return nil, errors.New("ValidationError: attaching would exceed the group's max size")
 	}
 	for _, id := range ids {
-		a.Instances = append(a.Instances, AInst{ID: id, AZ: "az-a"})
+		a.Instances = append(a.Instances, AInst{ID: id, AZ: azOf(id)})
 		w.EC2[id].ASG = name
 	}
 	a.Desired += int64(len(ids))
@@ -275,10 +275,14 @@ func (s EC2API) DescribeInstanceStatusPages(in *ec2.DescribeInstanceStatusInput,
 		e.Err = "injected"
 		return errors.New("injected DescribeInstanceStatus failure")
 	}
-	ready := w.ReadyFromPoll > 0 && w.polls >= w.ReadyFromPoll
-	if ready {
-		for _, id := range ids {
-			if inst := w.EC2[id]; inst != nil && inst.State == "pending" {
+	if w.ReadyFromPoll > 0 {
+		for i, id := range ids {
+			from := w.ReadyFromPoll
+			if w.ReadyStagger && staggered(id) {
+				from++
+			}
+			_ = i
+			if inst := w.EC2[id]; inst != nil && inst.State == "pending" && w.polls >= from {
 				inst.State = "running"
 			}
 		}
@@ -352,4 +356,12 @@ func (s EC2API) TerminateInstances(in *ec2.TerminateInstancesInput) (*ec2.Termin
 		}
 	}
 	return &ec2.TerminateInstancesOutput{}, nil
+}
+
+// staggered: instances with an odd sequence number come up one poll later.
+func staggered(id string) bool {
+	if len(id) == 0 {
+		return false
+	}
+	return (id[len(id)-1]-'0')%2 == 1
 }
